@@ -368,6 +368,8 @@ func errKind(msg string) string {
 		return "empty-switch"
 	case strings.HasPrefix(msg, "Parenthesis mismatch"):
 		return "paren-mismatch"
+	case strings.HasPrefix(msg, "Function name must be IDENT"):
+		return "fname-not-ident"
 	case strings.HasPrefix(msg, "Long String delimiter mismatch"):
 		return "delimiter"
 	}
